@@ -92,11 +92,12 @@ static int SCTL[NSCTL];
 /* ctl request alphabet */
 enum { AK_RM=1, AK_RM2, AK_DBL, AK_INT, AK_NULL, AK_BLOB, AK_VINULL };
 typedef struct { int number; int ak; int ai; const char *name; } ctlop;
-static struct ovectl_ratemanage_arg RMV[8]; static int nrm;
+static struct ovectl_ratemanage_arg RMV[160]; static int nrm;
 static struct ovectl_ratemanage2_arg RM2V[40]; static int nrm2;
 static double DBLV[16]; static int ndbl;
 static int INTV[4]={0,1,INT_MIN,0};
-static ctlop OPS[80]; static int NOPS;
+static ctlop OPS[256]; static int NOPS,NOPS_ENUM;   /* OPS[0..NOPS_ENUM) is the alphabet the histories are enumerated over; the rest are only issued by explicit index */
+static char V1NAMES[140][56];
 static void addop(int number,int ak,int ai,const char *name){ OPS[NOPS].number=number; OPS[NOPS].ak=ak; OPS[NOPS].ai=ai; OPS[NOPS].name=name; NOPS++; }
 static int rm2(int act,long mn,long mx,long res,double bias,long avg,double damp){
   struct ovectl_ratemanage2_arg *a=&RM2V[nrm2]; memset(a,0,sizeof(*a));
@@ -190,6 +191,21 @@ static void init_ops(void){
   addop(-1,AK_BLOB,0,"REQ(-1)");
   addop(0x121,AK_BLOB,0,"REQ(0x121)");
   addop(OV_ECTL_LOWPASS_GET,AK_VINULL,0,"LP_GET(vi=NULL)");
+  NOPS_ENUM=NOPS;
+  /* deprecated (v1) requests OV_ECTL_RATEMANAGE_SET / _AVG / _HARD: the typical struct with ONE member at a time at a boundary value
+     (doubles: -1e300, -2, -0.001, 0, 1e-300, 1e300, NaN, +-inf; longs: -1, 0, 1, LONG_MAX).  Issued by explicit index only (case C with nfix == length). */
+  { static const int reqs[3]={OV_ECTL_RATEMANAGE_SET,OV_ECTL_RATEMANAGE_AVG,OV_ECTL_RATEMANAGE_HARD}; static const char *const rn[3]={"RM_SET","RM_AVG","RM_HARD"};
+    static const char *const mn[7]={"hard_min","hard_max","av_lo","av_hi","hard_window","av_window","av_window_center"};
+    const double dbv[9]={-1e300,-2.,-0.001,0.,1e-300,1e300,NAN,INFINITY,-INFINITY}; const long lgv[4]={-1,0,1,LONG_MAX};
+    int q,m,k,nn=0;
+    for(q=0;q<3;q++)for(m=0;m<7;m++)for(k=0;k<(m<4?4:9);k++){
+      int idx=rm(1,64000,256000,2.,128000,128000,2.); struct ovectl_ratemanage_arg *a=&RMV[idx];
+      switch(m){ case 0: a->bitrate_hard_min=lgv[k]; break; case 1: a->bitrate_hard_max=lgv[k]; break; case 2: a->bitrate_av_lo=lgv[k]; break; case 3: a->bitrate_av_hi=lgv[k]; break;
+                 case 4: a->bitrate_hard_window=dbv[k]; break; case 5: a->bitrate_av_window=dbv[k]; break; default: a->bitrate_av_window_center=dbv[k]; break; }
+      if(m<4)snprintf(V1NAMES[nn],sizeof(V1NAMES[nn]),"%s(%s=%ld)",rn[q],mn[m],lgv[k]); else snprintf(V1NAMES[nn],sizeof(V1NAMES[nn]),"%s(%s=%g)",rn[q],mn[m],dbv[k]);
+      addop(reqs[q],AK_RM,idx,V1NAMES[nn]); nn++;
+    }
+  }
 }
 /* is this request a "modify" request in the sense of the header (a *_SET, or the deprecated AVG/HARD setters)? */
 static int is_set_request(int number){
@@ -621,7 +637,8 @@ static void print_tables(void){
   printf("],\"quals\":["); for(i=0;i<NQUALS;i++)printf("%s\"%s\"",i?",":"",qname(QUALS[i],qb));
   printf("],\"bitr\":["); for(i=0;i<7;i++)printf("%s%ld",i?",":"",BITR[i]);
   printf("],\"mrates\":["); for(i=0;i<8;i++)printf("%s%ld",i?",":"",MRATES[i]);
-  printf("],\"ops\":["); for(i=0;i<NOPS;i++)printf("%s[%d,\"%s\",%d]",i?",":"",OPS[i].number,OPS[i].name,is_set_request(OPS[i].number)&&OPS[i].ak!=AK_VINULL);
+  printf("],\"ops_v1\":["); for(i=NOPS_ENUM;i<NOPS;i++)printf("%s\"%s\"",i>NOPS_ENUM?",":"",OPS[i].name);
+  printf("],\"ops\":["); for(i=0;i<NOPS_ENUM;i++)printf("%s[%d,\"%s\",%d]",i?",":"",OPS[i].number,OPS[i].name,is_set_request(OPS[i].number)&&OPS[i].ak!=AK_VINULL);
   printf("],\"signals\":["); for(i=0;i<NSIG;i++)printf("%s\"%s\"",i?",":"",SIGNAMES[i]);
   printf("],\"perch\":["); for(i=0;i<NPERCH;i++)printf("%s%ld",i?",":"",PERCH[i]);
   printf("],\"absv\":["); for(i=0;i<NABSV;i++)printf("%s%ld",i?",":"",ABSV[i]);
@@ -697,7 +714,7 @@ int main(int argc,char **argv){
       for(k=nfix;k<L;k++)ops[k]=0;
       while(1){
         one_history(&A,base,a,b,c,ops,enc,&states);
-        for(k=L-1;k>=nfix;k--){ if(++ops[k]<NOPS)break; ops[k]=0; }
+        for(k=L-1;k>=nfix;k--){ if(++ops[k]<NOPS_ENUM)break; ops[k]=0; }
         if(k<nfix)break;
       }
     }else{ printf("%ld BADCASE\n",idx); fflush(stdout); continue; }
